@@ -25,6 +25,10 @@ def lib():
     qdir = os.path.join(REPO, "quatica")
     if qdir not in sys.path:
         sys.path.insert(0, qdir)
+    # the library also imports itself as a package in places (`from quatica.decomp.qsvd import qr_qua`);
+    # make that resolve to the tree under test, not to the editable install of /repo
+    if REPO not in sys.path:
+        sys.path.insert(1, REPO)
     os.environ.setdefault("MPLBACKEND", "Agg")
     ns = types.SimpleNamespace()
     ns.utils = importlib.import_module("utils")
